@@ -96,7 +96,7 @@ def run(rep: Report, prog: Program, tier: str) -> None:
                     rep.ok("R7.6")
                 else:
                     rep.fail("R7.6", f"allow-site|{fi.qual}", f"{fi.qual} calls CircuitBreaker.allow() outside the analysed entry points: an admission nobody settles", where=fi.where(n), function=fi.qual)
-    rep.floor("R7.6", 2)
+    rep.floor("R7.6", 1)  # at least one admission site exists (how many share it is the code's business)
     rep.rule("R7.7", "observing is not acting: CircuitBreaker.state is a pure read of _state (no store, no call besides the lock) - the policy layer reads it to label events - and _BreakerDecision is a transparent record")
     from .foundations import pure_property, records_transparent
 
